@@ -27,7 +27,7 @@ const (
 	sigMulti    = "ctl:break-continue-level-ignored"
 	sigNoReturn = "ctl:implicit-return-value"
 	modelFuel   = 20000
-	refBudgetN  = 60000
+	refBudgetN  = 30000
 )
 
 type gcase struct {
@@ -141,12 +141,23 @@ func sigOf(p *Prog, kind string) string {
 }
 
 func (r *runner) flush() {
-	cases := r.pending
+	c := r.c
+	// the reference interpreter first: a program over its step budget is not run at all
+	var cases []gcase
+	var refs []RefResult
+	for _, g := range r.pending {
+		ref := RunRef(g.Prog, refBudgetN)
+		if ref.Status == "budget" {
+			c.Hit("skipped:reference-budget")
+			continue
+		}
+		cases = append(cases, g)
+		refs = append(refs, ref)
+	}
 	r.pending = nil
 	if len(cases) == 0 {
 		return
 	}
-	c := r.c
 	dbg := os.Getenv("C02_DEBUG") != ""
 	if dbg {
 		fmt.Fprintf(os.Stderr, "[%6.1fs] flush %d cases (stream %s), evals so far %d\n", c.Elapsed().Seconds(), len(cases), cases[0].Stream, c.Res.Evaluations)
@@ -157,6 +168,9 @@ func (r *runner) flush() {
 		lines = append(lines, "model\t"+strconv.Itoa(modelFuel)+"\t"+sx, "spec\t"+strconv.Itoa(modelFuel)+"\t"+sx, "nodes\t"+sx, "frag\t"+sx)
 	}
 	var answers []string
+	if dbg {
+		os.WriteFile("/tmp/c02/lastbatch.txt", []byte(strings.Join(lines, "\n")+"\n"), 0o644)
+	}
 	if r.m != nil {
 		var err error
 		answers, err = r.m.AskBatch(lines)
@@ -184,11 +198,7 @@ func (r *runner) flush() {
 		if dbg {
 			fmt.Fprintf(os.Stderr, "[%6.1fs]   case %d\n", c.Elapsed().Seconds(), i)
 		}
-		ref := RunRef(p, refBudgetN)
-		if ref.Status == "budget" {
-			c.Hit("skipped:reference-budget")
-			continue
-		}
+		ref := refs[i]
 		impl := implRes{Out: impls[i].Out, Status: impls[i].Status, Detail: impls[i].Detail}
 		feats := p.Features()
 		key := g.Stream + ":" + p.Sexp()
